@@ -267,7 +267,7 @@ pub fn run(run: &Run) {
     // call histories: decoding is a pure function of the word, so a word must be judged the same way whatever was
     // decoded just before — every word of the low 18 bits is decoded directly after each of its 32 one-bit neighbours
     // and after itself (64 blocks of 4096 words)
-    run.enumerate("type-info-after-neighbour", 64, false, |b| {
+    run.enumerate("type-info-after-neighbour", 64, true, |b| {
         let mut rep = BlockReport::default();
         let res = guard(|| {
             for low in (b as u32) * 4096..(b as u32 + 1) * 4096 {
